@@ -1,3 +1,4 @@
+import token
 import tokenize
 from pathlib import Path
 
@@ -32,7 +33,15 @@ class SourceFile:
         return self._source.asttokens()
 
     def _token_to_code(self, tokens):
-        return self._format(tokenize.untokenize(tokens)).strip()
+        code = tokenize.untokenize(tokens)
+        if tokens and all(t.type == token.STRING for t in tokens):
+            # a lone string would be formatted like a module docstring,
+            # which can change its value (leading/trailing whitespace, trailing quotes)
+            formatted = self._format(f"({code})").strip()
+            if formatted.startswith("(") and formatted.endswith(")"):
+                return formatted[1:-1].strip()
+            return code.strip()
+        return self._format(code).strip()
 
     def _value_to_code(self, value):
         return self._token_to_code(value_to_token(value))
